@@ -228,6 +228,53 @@ pub fn open_schema_change(ctx: &ShardCtx, nested: u32) -> BoxedStrategy<CrashCas
         .boxed()
 }
 
+/// Loser-with-history shape: a session inserts a row and changes it (and others) several times, another transaction
+/// commits meanwhile (so the session's records are on disk), and the process dies before the session ends - or
+/// while it rolls back / commits. Recovery has to undo a chain of changes to one row.
+fn loser_with_history(ctx: &ShardCtx, nested: u32) -> BoxedStrategy<CrashCase> {
+    let excluded: Vec<String> = ctx.excludes.keys().cloned().collect();
+    (any::<bool>(), prop::collection::vec(0u8..12, 0..3), any::<bool>(), 0u8..12, prop::collection::vec((0u8..5, 0u8..12), 1..5), prop::collection::vec((0u8..3, 0u8..12), 1..3), 0u8..3, prop::collection::vec(0u8..12, 0..3))
+        .prop_map(move |(not_null, pre, checkpoint_first, own, changes, others, end, post)| {
+            let row = |v: u8| vec![AVal::Pool(v), AVal::Pool(v / 2), AVal::Pool(v), AVal::Pool(v), AVal::Pool(v)];
+            let ins = |v: u8| AStmt::Insert { t: 0, rows: vec![row(v)], partial: false };
+            let mut steps = vec![Step::Auto(AStmt::Create { name: 0, cols: vec![ACol { ty: 0, not_null, default: None }, ACol { ty: 0, not_null: false, default: None }], pk: None, uniq: None })];
+            for v in pre {
+                steps.push(Step::Auto(ins(v)));
+            }
+            if checkpoint_first {
+                steps.push(Step::Flush);
+            }
+            steps.push(Step::Begin(0));
+            steps.push(Step::Exec(0, ins(own)));
+            for (kind, v) in changes {
+                steps.push(Step::Exec(0, match kind {
+                    0 => AStmt::Update { t: 0, col: u16::MAX, val: AVal::Pool(v), add: None, pred: APred::True },
+                    1 => AStmt::Update { t: 0, col: 0, val: AVal::Pool(v), add: Some(0), pred: APred::True },
+                    2 => AStmt::Update { t: 0, col: u16::MAX, val: AVal::Null, add: None, pred: APred::Cmp { col: 0, op: 0, val: AVal::Pool(own) } },
+                    3 => ins(v),
+                    _ => AStmt::Delete { t: 0, pred: APred::Cmp { col: 0, op: 0, val: AVal::Pool(v) } },
+                }));
+            }
+            for (kind, v) in others {
+                steps.push(Step::Auto(match kind {
+                    0 => ins(v),
+                    1 => AStmt::Delete { t: 0, pred: APred::True },
+                    _ => AStmt::Delete { t: 0, pred: APred::Cmp { col: 0, op: 0, val: AVal::Pool(v) } },
+                }));
+            }
+            match end {
+                0 => steps.push(Step::Commit(0)),
+                1 => steps.push(Step::Rollback(0)),
+                _ => {}
+            }
+            for v in post {
+                steps.push(Step::Auto(ins(v)));
+            }
+            CrashCase { cfg: Cfg::default(), steps, excluded: excluded.clone(), stride: 1, nested, flush_with_open_writer: true }
+        })
+        .boxed()
+}
+
 fn shard(ctx: &mut ShardCtx, prefix: &'static str, small_cache: bool, nested: u32, quick: u64, thorough: u64, replay: fn(&str, &Value) -> CaseOut) {
     if ctx.shard == 0 {
         ctx.witnesses(&replay);
@@ -244,6 +291,9 @@ fn shard(ctx: &mut ShardCtx, prefix: &'static str, small_cache: bool, nested: u3
     let nb = ctx.share(ctx.tier.pick(32, 600));
     let s5 = big_txn(ctx, 0);
     ctx.search("crash_history", s5, nb, &move |c: &CrashCase| for_property(run_crash(c), prefix));
+    let nh = ctx.share(ctx.tier.pick(480, 8_000));
+    let s7 = loser_with_history(ctx, nested.min(1));
+    ctx.search("crash_history", s7, nh, &move |c: &CrashCase| for_property(run_crash(c), prefix));
     let ns = ctx.share(ctx.tier.pick(320, 6_000));
     let s6 = open_schema_change(ctx, nested.min(1));
     ctx.search("crash_history", s6, ns, &move |c: &CrashCase| for_property(run_crash(c), prefix));
